@@ -73,6 +73,13 @@ def write_mc(wd, name, extends, defs, cfg):
         f.write(cfg)
     return os.path.join(wd, name + ".tla"), os.path.join(wd, name + ".cfg")
 
+def write_data(wd, module, defs):
+    """Write a generated data module (plain definitions, evaluated once by TLC) into wd; wd must be on the TLA-Library path.
+    defs: dict name -> python value."""
+    os.makedirs(wd, exist_ok=True)
+    with open(os.path.join(wd, module + ".tla"), "w") as f:
+        f.write("---- MODULE %s ----\nEXTENDS TLC, Integers\n%s\n====\n" % (module, "\n".join("%s == %s" % (k, to_tla(v)) for k, v in defs.items())))
+
 def canon(v):
     return json.dumps(v, sort_keys=True, separators=(",", ":"))
 
